@@ -53,9 +53,9 @@ def PinterpSoundFull : Prop :=
     ConcretizesFull σ preq req → StoreCompletes σ pes es →
     RespectsTypes σ (e.unknowns ++ preq.unknowns ++ pes.unknowns) →
     match pinterp [] preq pes env n e with
-    | .val v => ResultAgree (evaluate req es env (v.toExpr.subst σ)) (evaluate req es env (e.subst σ))
-    | .res r => ResultAgree (evaluate req es env (r.subst σ)) (evaluate req es env (e.subst σ))
-    | .err _ => ∃ c, evaluate req es env (e.subst σ) = .error c
+    | .val v => ResultAgree (evaluate req es env (v.toExpr.substUnk σ)) (evaluate req es env (e.substUnk σ))
+    | .res r => ResultAgree (evaluate req es env (r.substUnk σ)) (evaluate req es env (e.substUnk σ))
+    | .err _ => ∃ c, evaluate req es env (e.substUnk σ) = .error c
     | .fuel => True
     | .panic => True
 
